@@ -560,6 +560,25 @@ fn run_sweep_inner(prop: &'static str, sc: &Scenario, ctl: &Arc<Ctl>, record_onl
             std::thread::yield_now();
         }
     }
+    // ---- A sits in Manager::detach of its take(): the pool has let the object go and, without its lock,
+    // runs user code of unknown duration. The slot is free already (status() says so), so a caller that
+    // has been waiting must be served now, not when detach() comes back.
+    if reached && sc.point == "cb:detach" && matches!(sc.a, AOp::Take) && c_handle.is_some() && c_pending.load(Ordering::SeqCst) && !pool.is_closed() {
+        let st_now = pool.status();
+        if st_now.size < st_now.max_size {
+            let t0 = std::time::Instant::now();
+            while !c_done.load(Ordering::SeqCst) && t0.elapsed() < Duration::from_millis(1500) {
+                std::thread::sleep(Duration::from_micros(200));
+            }
+            if !c_done.load(Ordering::SeqCst) {
+                sh.viol(
+                    &["C02", "C09"],
+                    "stranded_waiter",
+                    format!("take() has freed a slot (status {:?}) and is inside Manager::detach, but the caller blocked in get() has not been served after 1.5 s", st_now),
+                );
+            }
+        }
+    }
     // ---- operation B on the controller thread
     enter(ctl, ROLE_CTRL);
     let mut b_held: Vec<TObject> = Vec::new();
